@@ -7,3 +7,7 @@ package generator
 // VerifC39Stop calls the unexported stop: cancels the contexts of all workers
 // (what a process exit does to the pool's generator goroutine).
 func (s *Scheduler) VerifC39Stop() { s.stop() }
+
+// VerifC39Resume calls the unexported resume (generation restarts after the
+// protocol that stopped it has finished).
+func (s *Scheduler) VerifC39Resume() { s.resume() }
